@@ -23,6 +23,13 @@ func genTree(r *rand.Rand, depth int, cnt *int, parent *drive.Cmd, name string, 
 	for i := 0; i < r.Intn(3); i++ {
 		t.Aliases = append(t.Aliases, fmt.Sprintf("%s_al%d", name, i))
 	}
+	if parent != nil && r.Intn(8) == 0 {
+		// names are used as written, in any letter case ("Status ST")
+		t.Aliases = append(t.Aliases, []string{"Cmd", "ST", "cMd"}[r.Intn(3)]+fmt.Sprint(*cnt))
+		if r.Intn(2) == 0 {
+			t.Aliases[0], t.Aliases[len(t.Aliases)-1] = t.Aliases[len(t.Aliases)-1], t.Aliases[0]
+		}
+	}
 	if parent != nil && r.Intn(10) == 0 {
 		// a name that starts with a dash (`Command("list -l", ...)`): still a name
 		t.Aliases = append(t.Aliases, []string{"--cmd-", "-y"}[r.Intn(2)]+fmt.Sprint(*cnt))
@@ -470,7 +477,7 @@ func init() {
 		Rule: "random trees (depth<=3, fan-out<=3, 1-3 aliases per command, every level with its own options/arguments of the same names, spec generated or missing); invocation = a path written with random aliases, " +
 			"per level a command line derived from that level's spec (1/3 mutated) that never spells an alias of that level. Oracle: if every level's own tokens are accepted by that level's spec exactly the hooks of the path and the " +
 			"addressed Action run (once, in nesting order), each level's variables hold a derivation of its own tokens and every other command's variables are untouched; otherwise nothing runs and a non-nil error is returned. " +
-			"Trees also contain command groups that declare nothing (with stray tokens), option-only levels, hidden commands, commands named like their parent, dash-leading names, near misses of names (case, prefix, blanks) as data, sub-commands declaring -h/--help; what each ancestor's variables held when a sub-command's initializer ran must equal what the Action sees. " +
+			"Trees also contain command groups that declare nothing (with stray tokens), option-only levels, hidden commands, commands named like their parent, dash-leading names, names with capitals, near misses of names (case, prefix, blanks) as data, sub-commands declaring -h/--help; what each ancestor's variables held when a sub-command's initializer ran must equal what the Action sees. " +
 			"On accepted invocations the commands that are only passed through have, one time in three, no Action at all (pure dispatchers). One case in ten declares a command after a first Run (late), one in ten runs a bare tree on three paths in a row on the same application object (twice). " +
 			"non-trivial = path of >=2 levels or a rejected invocation; distinct by (tree, argv).",
 		Assumptions: []string{"routing model of DESIGN.md 3.5; unclaimed zones of C01 per level skipped; no help/version tokens (C14)"},
